@@ -147,6 +147,16 @@ PROPS["C14"] = Prop(
 )
 PARAMS["C14"] = {"rule": "N in 0..=17, 31..=33, 1023, 1024, 1025, 2047..=2049, 3000, 4096 (covering the three strategies and their thresholds +-1) x every precision 0..=2N+2 for N <= 33, boundary and seeded precisions above x both cases x 2-3 byte patterns (never all-zero), with the faster-hex feature off and on. Non-trivial = N > 0 and precision != 0."}
 
+PROPS["C17"] = Prop(
+    "C17", ["GA.Props.C17"],
+    [Engine("serde", scen.serde, sig=lambda l: l.split()[0] + "/" + ("script" if "steps=" in l else "fmt"))],
+    trusted=[KERNEL, TRANSLATOR, HARNESS,
+             "modelled, not verified: serde's SeqAccess / SerializeTuple contracts, serde_json and bincode themselves (their framing is observed by running them), IntrusiveArrayBuilder's drop guard (C04/C07 model, regenerated)"],
+    assumptions=["a source that reports Some(0) remaining after N reads while still holding elements is outside the claim (the model follows the code there and the oracle does not judge it)"],
+    nontrivial=lambda s, impl: " n=0 " not in s and "res=err" in impl or "op=ser" in s and " n=0" not in s,
+)
+PARAMS["C17"] = {"rule": "N in {0..8,16,17,33,64,97}: serialize through JSON and bincode (framing, round trip); deserialize from JSON text, serde_json::Value and bincode with {0,N-1,N,N+1,N+2} elements and a malformed element at several positions; scripted SeqAccess sources: every delivered count 0..N+2 x terminator {end, error, error-then-more, end-then-more, exhausted} x up-front hint {none,0,N-1,N,N+1,count} x closing hint {none,0,1,surplus}, plus random scripts with errors in the middle; drop-tracked elements, full event order (polls, element creations, drops). Non-trivial = a rejected input with N > 0, or a serialisation with N > 0."}
+
 HEAP_TRUST = "modelled, not verified: alloc's Vec/Box allocation contract (with_capacity, into_boxed_slice, Vec::from(Box<[T]>), Box::into_raw/from_raw, Box drop releasing a block iff the type has non-zero size), handle_alloc_error; the recording global allocator and the child-process observation of allocation failure are harness code"
 
 PROPS["C16"] = Prop(
